@@ -3,6 +3,7 @@ package substitution
 import (
 	"bytes"
 	"encoding/json"
+	"errors"
 	"fmt"
 )
 
@@ -70,6 +71,9 @@ func parseTrimToFilter(data string, offset int) (FieldFilter, int, error) {
 	}
 	if err := json.Unmarshal([]byte(args[1]), &cutset); err != nil {
 		return nil, filterEndPos, fmt.Errorf("failed to parse trim_to filter cutset: %w", err)
+	}
+	if cutset == "" {
+		return nil, filterEndPos, errors.New("failed to parse trim_to filter cutset: must not be empty")
 	}
 	filter := &TrimToFilter{
 		mode:   mode,
